@@ -899,6 +899,50 @@ def _faults(o):
 EXTRA.append(_faults)
 
 
+# ---------------------------------------------------------------------------
+# signing (C14)
+# ---------------------------------------------------------------------------
+
+def _sign(o):
+    mf = _src('gemato/manifest.py')
+    rl = _src('gemato/recursiveloader.py')
+    pg = _src('gemato/openpgp.py')
+    cl = _src('gemato/cli.py')
+
+    def lines(tree, fn, cls):
+        f = find_func(tree, fn, cls)
+        body = f.body
+        if body and isinstance(body[0], ast.Expr) and isinstance(body[0].value, ast.Constant):
+            body = body[1:]
+        return llist(lstr(x) for st in body for x in _u(st).split('\n'))
+    o.item('sign_dump', 'List (List Nat)', lambda: lines(mf, 'dump', 'ManifestFile'), '[]')
+    o.item('sign_save_manifest', 'List (List Nat)', lambda: lines(rl, 'save_manifest', 'ManifestRecursiveLoader'), '[]')
+    o.item('sign_clear_sign_file', 'List (List Nat)', lambda: lines(pg, 'clear_sign_file', 'SystemGPGEnvironment'), '[]')
+
+    def rename_block():
+        f = find_func(rl, 'save_manifests', 'ManifestRecursiveLoader')
+        for n in ast.walk(f):
+            if isinstance(n, ast.If) and 'is_compr != want_compr' in _u(n.test):
+                return llist(lstr(x) for st in n.body for x in _u(st).split('\n'))
+        raise KeyError('rename block')
+    o.item('sign_rename_block', 'List (List Nat)', rename_block, '[]')
+
+    def cli_opts():
+        f = find_func(cl, 'parse_args', 'BaseUpdateMixin')
+        out = [x for st in f.body for x in _u(st).split('\n') if 'sign' in x or 'openpgp' in x]
+        g = find_func(cl, 'add_options', 'BaseUpdateMixin')
+        for n in ast.walk(g):
+            if isinstance(n, ast.Call) and _u(n.func).endswith('add_argument') and n.args and \
+                    ast.literal_eval(n.args[0]) in ('-s', '-S', '-k'):
+                out.append(' '.join(_u(a) for a in n.args) + ' ' +
+                           ' '.join(f'{k.arg}={_u(k.value)}' for k in n.keywords if k.arg != 'help'))
+        return llist(lstr(x) for x in out)
+    o.item('sign_cli_options', 'List (List Nat)', cli_opts, '[]')
+
+
+EXTRA.append(_sign)
+
+
 if __name__ == '__main__':
     errs = write_extracted()
     print(open(os.path.join(LEAN, 'Gemato', 'Extracted.lean')).read())
